@@ -452,11 +452,21 @@ def run_nostderr(spec, res):
         code = 0
         try:
             os.close(r)
-            calls = []  # (p, seq, cyc, thread ident), recorded on entry of the wrapped destination
+            calls = []  # (p, seq, cyc, thread number), recorded on entry of the wrapped destination
+            threads = []  # thread objects seen, kept alive: their position is a name that is never reused (OS thread idents are)
+
+            def me():
+                import threading
+                t = threading.current_thread()
+                for k, x in enumerate(threads):
+                    if x is t:
+                        return k
+                threads.append(t)
+                return threads.index(t)
 
             def dest(msg):
                 key = (msg["p"], msg["seq"], msg["cyc"])
-                calls.append(key + (_thread.get_ident(),))
+                calls.append(key + (me(),))
                 if key in failing:
                     kind = kind_of[key]
                     if kind == "oserror":
@@ -473,7 +483,7 @@ def run_nostderr(spec, res):
             with warnings.catch_warnings():
                 warnings.simplefilter("ignore")
                 writer = logwriter.ThreadedWriter(dest, twisted_stub.Reactor())
-            callers = [_thread.get_ident()]
+            callers = [me()]
             completed = []
             for cyc in range(cycles):
                 with warnings.catch_warnings():
@@ -482,7 +492,7 @@ def run_nostderr(spec, res):
 
                 def offer(p, cyc=cyc):
                     if p:
-                        callers.append(_thread.get_ident())
+                        callers.append(me())
                     for s_ in range(nmsg):
                         writer(make_message(p, s_, cyc))
                 others = [sched._real_Thread(target=offer, args=(p,), daemon=True) for p in range(1, nprod)]
